@@ -5,6 +5,8 @@ C07 — negation witnesses: concrete inputs on which the *full-strength* stateme
 import WpModel.Model.Declarations
 import WpModel.Model.VarSubst
 import WpModel.Model.PendingC07
+import WpModel.Model.ExpandersC07
+import WpModel.Model.DescriptorsC07
 
 namespace Wp.Witness.C07
 open Wp Wp.Decl Wp.Var
@@ -58,5 +60,42 @@ a `var()` reaches `parent_style[key]` with no parent: `TypeError` (finding `var-
 theorem var_inherit_on_root :
     Pending.select (β := Nat) "width" false .inheritKw = .ok .initial ∧
     Pending.select (β := Nat) "width" false (.pending .inheritKw) = .error .typeError := by decide
+
+/-! ### `margin: var(--a)` with `--a: 7px red`: a shorthand invalid after substitution is applied in part -/
+
+/-- `expand_four_sides` on `7px red` yields `margin-top: 7px` and then raises `InvalidValues` on `red`; the
+literal declaration `margin: 7px red` is dropped as a whole, but `PendingExpander.validate` returns at the first
+match, so `margin-top` gets 7px while the other three sides fall back (finding
+`var-shorthand-partially-applied`): `C07.pending_expander_partial` needs its hypothesis `gen.ends = none`. -/
+theorem pending_expander_partial_application :
+    pendingExpanderValidate "margin" { items := [("margin-top", "7px")], ends := some .invalid } "margin-top"
+      = .ok "7px" ∧
+    pendingExpanderValidate (β := String) "margin" { items := [("margin-top", "7px")], ends := some .invalid }
+      "margin-right" = .error .invalid := by decide
+
+/-! ### `@font-face { font-family: x; src: format("woff") }`: a descriptor validator that crashes -/
+
+/-- The `src` validator raises `IndexError` on `format("woff")` (finding `font-face-src-format-indexerror`; the
+`system` validator does the same on an empty value: `counter-style-system-empty-indexerror`): the descriptor
+funnel propagates it and the valid `font-family` before it is lost with the whole stylesheet, so "no malformed
+stylesheet can abort rendering" needs validators that only raise `InvalidValues`
+(`C07.descriptors_only_propagate`). -/
+theorem descriptor_funnel_aborts_on_validator_crash :
+    let v : String → Desc → R (Option String) := fun name _ =>
+      if name = "src" then .error .indexError else .ok (some "x")
+    let d (n : String) (i : Nat) : Desc := { kind := .declaration, name := n, important := false, id := i }
+    preprocessDescriptors "font-face" v [d "font-family" 0] = .ok [("font_family", "x")] ∧
+    preprocessDescriptors "font-face" v [d "font-family" 0, d "src" 1] = .error .indexError := by decide
+
+/-! ### `flex: 0.0`: a unitless zero that is not written as an integer -/
+
+/-- `expand_flex` recognises the unitless zero by `token.int_value == 0`; for `0.0` (or `1e-999`) `int_value` is
+`None`, the token is a valid `flex-basis` (`get_length` accepts any zero number) and is taken as the basis: the
+shorthand means `1 1 0` where `flex: 0` means `0 1 0px` (finding `flex-float-zero-as-basis`). -/
+theorem flex_float_zero_is_basis :
+    (flexRaw false (fun q => "n:" ++ showRat q) "0px" "auto" [⟨false, true, some 0, "0.0"⟩]).items
+      = [("-grow", "n:1"), ("-shrink", "n:1"), ("-basis", "0.0")] ∧
+    (flexRaw false (fun q => "n:" ++ showRat q) "0px" "auto" [⟨true, true, some 0, "0"⟩]).items
+      = [("-grow", "n:0"), ("-shrink", "n:1"), ("-basis", "0px")] := by decide +kernel
 
 end Wp.Witness.C07
